@@ -156,7 +156,36 @@ func c17(c *Ctx) {
 		for _, k := range ks {
 			sum.Add(sum, k)
 		}
-		switch r.Intn(10) {
+		switch r.Intn(11) {
+		case 10: // Select with a one-key sub-query over rows whose values are of every kind — numeral TEXT included:
+			// the result of running `$.code` on a row is the stored value (a string stays that string)
+			if n == 0 {
+				continue
+			}
+			pool := []*D{h.Str("007"), h.Str("12"), h.Str("1e3"), h.Str(".5"), h.Str("-3"), h.Str("abc"), h.Str(""), h.FloatD(7), h.FloatD(2.5), h.Bool(true), h.Int("int", 12), h.Str("0"), h.Str("12 ")}
+			var rows, want []*D
+			strOnly := r.Intn(3) == 0
+			for i := 0; i < n; i++ {
+				v := pool[r.Intn(len(pool))]
+				if strOnly {
+					v = pool[r.Intn(7)]
+				}
+				want = append(want, v)
+				row := h.Obj(recase("code", r.Intn), v, "id", h.FloatD(float64(i)))
+				switch {
+				case strOnly && it%2 == 0:
+					row = &D{Tag: "m", Kty: "str", Ety: "str", Ks: []*D{h.Str("code")}, Vs: []*D{v}} // map[string]string
+				case it%5 == 0:
+					row = toStruct(h.Obj("Code", v, "Id", h.FloatD(float64(i))))
+				}
+				rows = append(rows, row)
+			}
+			doc2 := h.Obj("xs", h.SliceAny(rows...))
+			sub := []string{"$.code", "@.code", "$.CODE", "$.code?"}[r.Intn(4)]
+			ec := c.AddEval(`$.xs.Select("`+sub+`")`, doc2, "select-key-mixed-values", true, true)
+			ec.Check = sameAbs(h.SliceAny(want...))
+			i := r.Intn(n)
+			ec = c.AddEval(fmt.Sprintf(`$.xs.Select("%s").Index(%d).AsJSON()`, sub, i), doc2, "select-key-mixed-values", true, true)
 		case 9: // Select whose sub-query yields NULL for some elements: one result per element, in order, nulls included
 			if n == 0 {
 				continue
